@@ -1,10 +1,111 @@
 import CueVerif.Driver.Proto
+import CueVerif.Spec.Disj
 namespace CueVerif.Driver.C04
-open CueVerif CueVerif.Driver
+open CueVerif CueVerif.Driver CueVerif.Disj
 
-/-- protocol handler for C04: words of one op line (after the property id) → answer -/
+/-! Protocol for C04.  Values of the instantiation are bit masks (down-sets of the finite
+meet-closure of the harness's atoms, computed with the implementation's own scalar/struct
+unification), meet = bitwise and, bottom = 0.
+
+Expressions travel in postfix, comma separated: `a<mask>` atom, `&` `|` binary, `*` mark,
+`p` parentheses.
+
+ops:  model <expr> <concreteBits>   the transcribed algorithm's observables
+      spec  <expr> <concreteBits>   the spec's value-default pair observables
+      (element ids are a linear extension of the order: a value's own id is the highest bit
+      of its mask; <concreteBits> has the id bits of the concrete elements)
+      class <expr>                  wf / no-nested-marks / flat / counts
+      mode <hasDefault> <marked>, comb <a> <b>, comb2 <a> <b> <da> <db>   table cells -/
+
+def parseExpr (s : String) : Option (Expr Nat) :=
+  let step (st : Option (List (Expr Nat))) (tok : String) : Option (List (Expr Nat)) :=
+    match st with
+    | none => none
+    | some stack =>
+      if tok == "&" then
+        match stack with
+        | r :: l :: rest => some (.and l r :: rest)
+        | _ => none
+      else if tok == "|" then
+        match stack with
+        | r :: l :: rest => some (.or l r :: rest)
+        | _ => none
+      else if tok == "*" then
+        match stack with
+        | e :: rest => some (.mark e :: rest)
+        | _ => none
+      else if tok == "p" then
+        match stack with
+        | e :: rest => some (.paren e :: rest)
+        | _ => none
+      else if tok.startsWith "a" then
+        match (tok.drop 1).toNat? with
+        | some n => some (.atom n :: stack)
+        | none => none
+      else none
+  match (s.splitOn ",").foldl step (some []) with
+  | some [e] => some e
+  | _ => none
+
+def insertSorted (x : Nat) : List Nat → List Nat
+  | [] => [x]
+  | y :: ys => if x ≤ y then x :: y :: ys else y :: insertSorted x ys
+
+def sortNats (xs : List Nat) : List Nat := xs.foldr insertSorted []
+
+def showNats (xs : List Nat) : String :=
+  if xs.isEmpty then "-" else ".".intercalate ((sortNats xs).map toString)
+
+def orAll (xs : List Nat) : Nat := xs.foldl (· ||| ·) 0
+
+/-- ok = a concrete value, inc = incomplete (non-concrete or ambiguous), err = bottom -/
+def clsOf (r : Res Nat) (conc : Nat → Bool) : String :=
+  match r with
+  | .bottom => "err"
+  | .ambiguous => "inc"
+  | .value x => if conc x then "ok" else "inc"
+
+/-- ids are a linear extension of the order, so a value's own id is the highest bit of its
+down-set mask; `c` has the bits of the concrete elements -/
+def conc (c : Nat) (x : Nat) : Bool := x != 0 && c.testBit (Nat.log2 x)
+
+def modeOf (s : String) : Option Mode :=
+  if s == "0" then some .maybe else if s == "1" then some .isDef else if s == "2" then some .notDef else none
+
+def boolOf (s : String) : Option Bool :=
+  if s == "true" then some true else if s == "false" then some false else none
+
 def handle (ws : List String) : String :=
   match ws with
+  | ["model", es, cs] =>
+    match parseExpr es, cs.toNat? with
+    | some e, some c =>
+      let o := eval bits e
+      s!"vals={showNats o.values} defs={showNats o.defaults} has={boolStr o.hasDefault} acc={orAll o.values &&& c} dacc={orAll o.defaultSet &&& c} cls={clsOf o.resolve (conc c)}"
+    | _, _ => "bad-op"
+  | ["spec", es, cs] =>
+    match parseExpr es, cs.toNat? with
+    | some e, some c =>
+      let p := specPair bits e
+      s!"acc={orAll p.v &&& c} dacc={orAll p.defaultSet &&& c} cls={clsOf p.resolve (conc c)}"
+    | _, _ => "bad-op"
+  | ["class", es] =>
+    match parseExpr es with
+    | some e =>
+      s!"wf={boolStr e.WF} nn={boolStr e.NoNestedMarks} flat={boolStr e.Flat} chains={e.chains} marked={e.markedChains}"
+    | none => "bad-op"
+  | ["mode", a, b] =>
+    match boolOf a, boolOf b with
+    | some x, some y => toString (mode x y).toNat
+    | _, _ => "bad-op"
+  | ["comb", a, b] =>
+    match modeOf a, modeOf b with
+    | some x, some y => toString (combineDefault x y).toNat
+    | _, _ => "bad-op"
+  | ["comb2", a, b, da, db] =>
+    match modeOf a, modeOf b, boolOf da, boolOf db with
+    | some x, some y, some p, some q => toString (combineDefault2 x y p q).toNat
+    | _, _, _, _ => "bad-op"
   | _ => "bad-op"
 
 end CueVerif.Driver.C04
